@@ -11,7 +11,7 @@ ID = "C18"
 LEVEL = "exploration"
 COUNTS = {"quick": 6000, "thorough": 600000}
 RULE = ("seeded histories: 1-4 Enums alive at once, built from a dict, from keywords or by an OpCode object as its service-action table, with 0-8 entries (ints with repeated values, "
-        "strings, bytes, tuples, None, nested dicts, OpCode objects; identifier and non-identifier names such as '5.25', 'CD-I'), then "
+        "strings, bytes, tuples, None, nested dicts, OpCode objects; identifier and non-identifier names such as '5.25', 'CD-I', '_RESERVED', 'name', 'kwargs'), then "
         "0-30 operations from {attribute read, E[value], keys, add, remove, add existing, remove missing, build another Enum}; after "
         "every operation every live Enum is compared with its dict model (names in order, values, reverse lookup of every value and "
         "of absent values). Non-trivial = at least one add or remove succeeded while two or more Enums were alive; distinct = event "
@@ -23,7 +23,8 @@ ASSUMPTIONS = [
 ]
 REQUIRED_PROBES = ["shared_source_dict", "source_dict_mutated", "opcode_serviceaction_enum", "add_ok", "remove_ok", "add_existing_refused", "remove_missing_refused", "duplicate_values", "multi_enum"]
 
-NAMES = ["A", "B", "C", "READ_10", "x", "y1", "Zz", "value", "name_", "k9", "5.25", "CD-I", "CD-ROM XA", "Less than 1.8", "a b", "é"]
+NAMES = ["A", "B", "C", "READ_10", "x", "y1", "Zz", "value", "name_", "k9", "5.25", "CD-I", "CD-ROM XA", "Less than 1.8", "a b", "é",
+         "_RESERVED", "_x", "name", "args", "kwargs", "key", "bases", "dict"]      # single leading underscore; names that are parameters of the constructor machinery
 RESERVED = {"keys", "add", "remove", "mro", "__getitem__"}
 
 
